@@ -8,6 +8,7 @@ import FastorModel.Driver.Footprint
 import FastorModel.Driver.ViewWrite
 import FastorModel.Driver.Linalg
 import FastorModel.Driver.Permute
+import FastorModel.Driver.RandomViews
 /-
   `fmodel`: line-protocol driver.  Reads one case per line on stdin, prints the model's observables
   for it.  The harness prints the implementation's observables for the same case in the same format.
@@ -34,6 +35,11 @@ def step (line : String) : String :=
   | "permute" :: rest => runPermute (parseKV rest)
   | "pmeta" :: rest => runPmeta (parseKV rest)
   | "transpose" :: rest => runTranspose (parseKV rest)
+  | "rview" :: rest => runRview (parseKV rest)
+  | "fview" :: rest => runFview (parseKV rest)
+  | "rview2" :: rest => runRview2 (parseKV rest)
+  | "rview3" :: rest => runRview3 (parseKV rest)
+  | "fview3" :: rest => runFview3 (parseKV rest)
   | _ => "bad-op"
 
 partial def loop (h : IO.FS.Stream) (out : IO.FS.Stream) : IO Unit := do
